@@ -28,7 +28,12 @@ def vm_array_prog(L, tab, n, idx, op):
     back = len(cond) + jf + len(loop_body)
     loop = cond + E("JMP_FALSE", jf + len(loop_body) + 5) + loop_body + E("JMP", (-back) & 0xFFFFFFFF)
     body = pre + loop + E("PUSH_STR", 1) + E("PRINTLN") + E("LOAD_LOCAL", 0)
-    if op == "get":
+    if op.endswith("-enum"):
+        # the index is an enum value (what `(at a Color.Blue)` compiles to)
+        push_idx = E("ENUM_VAL", 0, idx)
+        body += push_idx + {"get-enum": E("ARR_GET") + E("PRINTLN"), "set-enum": E("PUSH_I64", 77) + E("ARR_SET") + E("PRINTLN"),
+                            "remove-enum": E("ARR_REMOVE") + E("ARR_LEN") + E("PRINTLN")}[op]
+    elif op == "get":
         body += E("PUSH_I64", idx) + E("ARR_GET") + E("PRINTLN")
     elif op == "set":
         body += E("PUSH_I64", idx) + E("PUSH_I64", 77) + E("ARR_SET") + E("PRINTLN")
@@ -118,6 +123,21 @@ def src_kind(elem, op, idx, n=2):
             '    (println (array_length a))\n    (println "after")\n    return 0\n}\nshadow main { assert (== 1 1) }\n')
 
 
+def src_shape(shape, op, idx):
+    """the array operand is not a variable: a row of a nested array, the result of a call, a struct field"""
+    pre = ("struct Holder { items: array<int> }\n"
+           "fn mk(n: int) -> array<int> {\n    let mut r: array<int> = []\n    let mut i: int = 0\n    while (< i n) {\n        set r (array_push r (+ 1000 i))\n        set i (+ i 1)\n    }\n    return r\n}\nshadow mk { assert (== (array_length (mk 2)) 2) }\n")
+    decl = ("    let mut rows: array<array<int>> = []\n    set rows (array_push rows (mk 2))\n    set rows (array_push rows (mk 0))\n"
+            "    let h: Holder = Holder { items: (mk 2) }\n    let e: Holder = Holder { items: (mk 0) }\n")
+    full = {"row": "(at rows 0)", "call": "(mk 2)", "field": "h.items"}[shape]
+    empty = {"row": "(at rows 1)", "call": "(mk 0)", "field": "e.items"}[shape]
+    acc = {"get": "    (println (+ 1 (at %s %s)))\n" % (full, lit(idx)),
+           "set": "    (array_set %s %s 7)\n" % (full, lit(idx)),
+           "remove": "    let b: array<int> = (array_remove_at %s %s)\n    (println (array_length b))\n" % (full, lit(idx)),
+           "pop": "    let x: int = (array_pop %s)\n    (println x)\n" % (full if idx == 1 else empty)}[op]
+    return (pre + "fn main() -> int {\n" + decl + '    (println "before")\n' + acc + '    (println (array_length rows))\n    (println (array_length h.items))\n    (println (array_length e.items))\n    (println "after")\n    return 0\n}\nshadow main { assert (== 1 1) }\n')
+
+
 def run_vm_src(args):
     tdir, td, k, src = args
     p = os.path.join(td, "v%d.nano" % k)
@@ -167,6 +187,9 @@ def run(ctx):
             for op in ("get", "set", "remove"):
                 cases.append(("vm:%s len=%d idx=%d" % (op, n, idx), vm_array_prog(L, tab, n, idx, op), 0 <= idx < n, n, idx, op))
         cases.append(("vm:pop len=%d" % n, vm_array_prog(L, tab, n, 0, "pop"), n > 0, n, n - 1, "pop"))
+        for idx in sorted({0, 1, n - 1 if n else 0, n, n + 1, 5, 255, 65535}):
+            for op in ("get", "set", "remove"):
+                cases.append(("vm:%s-enum len=%d idx=%d" % (op, n, idx), vm_array_prog(L, tab, n, idx, op + "-enum"), 0 <= idx < n, n, idx, op))
     for kind in ("tuple", "struct", "union"):
         for n in (0, 1, 3):
             for f in sorted({0, 1, n - 1 if n else 0, n, n + 1, 255, 256, 65535}):
@@ -221,6 +244,18 @@ def run(ctx):
                 for mode in ("native", "vmsrc"):
                     if op != "pop":
                         progs.append((mode, 2, 1, op + "/" + elem, src_kind(elem, op, 1)))
+    # operand shapes: a row of a nested array, a call result, a struct field (in-range control with idx 1)
+    for shape in ("row", "call", "field"):
+        for op in ("get", "set", "remove", "pop"):
+            for idx in ((2, 1) if quick else (2, 1, -1, 3, 2**32)):
+                if op == "pop" and idx not in (1, 2):
+                    continue
+                for mode in ("native", "vmsrc"):
+                    if op == "pop":
+                        # label "popfull" for the in-range control so that the judge below treats only the empty case as out of range
+                        progs.append((mode, 2, 1 if idx == 1 else 2, ("popfull/" if idx == 1 else "pop/") + shape, src_shape(shape, op, idx)))
+                    else:
+                        progs.append((mode, 2, idx, op + "/" + shape, src_shape(shape, op, idx)))
     # interpreter: pop on an empty array (literal-built and push-built), every element kind
     for elem in ("int", "string", "struct"):
         for built in ("literal", "push"):
@@ -234,12 +269,15 @@ def run(ctx):
     for (mode, n, idx, op, src), (rc, out, err, exe) in zip(progs, res):
         lab = "%s:%s len=%d idx=%d" % (mode, op, n, idx)
         ctx.case(lab)
-        inr = (0 <= idx < n) if not op.startswith("pop") else (n > 0 and "/" not in op)
+        inr = (0 <= idx < n) if not op.startswith("pop") else ((n > 0 and "/" not in op) or op.startswith("popfull"))
         text = out.decode(errors="replace")
         if mode in ("native", "vmsrc"):
             ok = (rc == 0 and "after" in text) if inr else (isinstance(rc, int) and rc != 0 and "after" not in text)
         else:
             ok = (rc == 0 and "after" in text) if inr else (isinstance(rc, int) and rc != 0 and "after" not in text and not exe)
+        if "/" in op and rc == 1 and b"type check failed" in err:
+            ctx.count("kind_family_rejected_by_type_checker")
+            continue
         if rc == "compile-failed" and "/" in op:
             ctx.count("kind_family_not_compiled_natively")      # an accepted program that does not compile is C04's subject
             continue
